@@ -266,6 +266,16 @@ class Evaluator:
             raise Unknown(str(ex))
         raise Unknown("cmp")
 
+    def _args(self, e: ast.Call) -> List[Any]:
+        """positional arguments with *iterable expanded"""
+        out: List[Any] = []
+        for a in e.args:
+            if isinstance(a, ast.Starred):
+                out.extend(list(self.ev(a.value)))
+            else:
+                out.append(self.ev(a))
+        return out
+
     def _call(self, e: ast.Call) -> Any:
         if self.call_hook is not None:
             r = self.call_hook(e, self)
@@ -364,7 +374,7 @@ class Evaluator:
                 base = None
             if isinstance(base, _struct.Struct):
                 try:
-                    r = getattr(base, f.attr)(*[self.ev(a) for a in e.args])
+                    r = getattr(base, f.attr)(*self._args(e))
                     return list(r) if f.attr == "iter_unpack" else r
                 except _struct.error:
                     raise Raised("struct.error", e)
@@ -372,7 +382,37 @@ class Evaluator:
         if isinstance(f, ast.Name):
             r = self.prog.resolve_name(self.module, f.id)
             if r and r[0] == "func":
-                return self.call_function(r[1], [self.ev(a) for a in e.args], {k.arg: self.ev(k.value) for k in e.keywords})
+                return self.call_function(r[1], self._args(e), {k.arg: self.ev(k.value) for k in e.keywords})
+        # helper method of the class under evaluation (self.helper(...) / cls.helper(...)): evaluate its body with the same hook
+        if isinstance(f, ast.Attribute) and isinstance(f.value, ast.Name) and f.value.id in ("self", "cls") and self.cls is not None and f.value.id in self.env:
+            m = self.prog.find_method(self.cls, f.attr)
+            if m is not None and not isinstance(m.node, ast.AsyncFunctionDef) or m is not None and getattr(self, "allow_async_helpers", True):
+                args = [self.ev(a) for a in e.args]
+                kwargs = {k.arg: self.ev(k.value) for k in e.keywords}
+                bound = ([self.env[f.value.id]] + args) if m.kind in ("method", "property", "classmethod") else args
+                return self.call_function(m, bound, kwargs)
+        # the same for fragment evaluations that model the object by dotted environment keys ("self._queue": [...]) instead of a self object: the helper runs in the same environment
+        if isinstance(f, ast.Attribute) and isinstance(f.value, ast.Name) and f.value.id == "self" and self.cls is not None and "self" not in self.env \
+                and any(isinstance(k, str) and k.startswith("self.") for k in self.env):
+            m = self.prog.find_method(self.cls, f.attr)
+            if m is not None and m.kind == "method":
+                params = [p.arg for p in m.pos_params][1:]
+                vals = dict(zip(params, [self.ev(a) for a in e.args]))
+                vals.update({k.arg: self.ev(k.value) for k in e.keywords})
+                defaults = list(m.node.args.defaults)
+                for p_, d_ in zip(params[len(params) - len(defaults):], defaults):
+                    vals.setdefault(p_, self.ev(d_))
+                saved = {k: self.env[k] for k in vals if k in self.env}
+                self.env.update(vals)
+                try:
+                    Evaluator.exec_block(self, m.node.body)
+                except Ret as r:
+                    return r.value
+                finally:
+                    for k in vals:
+                        self.env.pop(k, None)
+                    self.env.update(saved)
+                return None
         raise Unknown(f"call {unparse(e)[:60]}")
 
     def call_function(self, fi, args: List[Any], kwargs: Dict[str, Any] = None, depth: int = 0) -> Any:
